@@ -129,7 +129,7 @@ def pattern_from_host(rng, host: onnx.ModelProto):
 
 
 def gen_rule(rng, idx: int, with_funcs: bool, allow_clash: bool, host=None) -> dict:
-    fam = rng.choice(["reemit", "reemit", "swap", "invol", "mulone", "asfn", "keep", "two"])
+    fam = rng.choice(["reemit", "reemit", "swap", "invol", "mulone", "asfn", "keep", "two", "multi"])
     name = f"r{idx}"
     spec = dict(name=name, remove=True, asfn=False, guard=True, inits=[], unique=False, family=fam)
     if fam == "invol":
@@ -143,6 +143,16 @@ def gen_rule(rng, idx: int, with_funcs: bool, allow_clash: bool, host=None) -> d
             spec["name"], spec["guard"] = "", False
         if rng.random() < 0.25:
             spec["remove"] = False
+        return spec
+    if fam == "multi":
+        # pattern with two output nodes (the matcher tries every same-op candidate for the second one), re-emitted
+        o1, o2 = rng.choice(L.UNARY), rng.choice(L.UNARY + L.COMM)
+        second = [("v", 0)] if o2 in L.UNARY else [("v", 0), ("v", rng.choice([0, 1]))]
+        if rng.random() < 0.3:
+            second = [("v", 1)] if o2 in L.UNARY else [("v", 1), ("v", 0)]
+        pn = [(o1, "", [("v", 0)], 1, []), (o2, "", second, 1, [])]
+        spec.update(pnodes=pn, root=0, pouts=[("n", 0, 0), ("n", 1, 0)],
+                    tnodes=[(op, dom, None, list(ins), nout, []) for op, dom, ins, nout, _ in pn], touts=[("n", 0, 0), ("n", 1, 0)])
         return spec
     if fam == "two" and with_funcs:
         nout = rng.choice([1, 2])
